@@ -137,3 +137,66 @@ def option_forwarding(ctx, rule, files):
                    f"{g.qualname} falls back to its default there", role=f"forwards:{g.name}" + ("" if not miss else ":" + ",".join(miss)),
                    line=c.lineno)
     return n
+
+
+# attributes that are easily confused with each other (same object, similar name, different meaning)
+CONFUSABLE = [
+    ("num_subsystems", "init_num_subsystems"),
+    ("reg_refs", "init_reg_refs"),
+    ("unused_indices", "init_unused_indices"),
+    ("circuit", "rolled_circuit", "unrolled_circuit", "space_unrolled_circuit"),
+    ("timebins", "concurr_modes", "spatial_modes", "N"),
+    ("run_options", "backend_options"),
+    ("samples", "samples_dict", "ancillae_samples_dict", "all_samples"),
+    ("select", "dark_counts"),
+    ("val", "default"),
+    ("_hbar", "hbar"),
+    ("nmat", "mmat"),
+    ("means", "covs", "weights"),
+]
+
+
+def attr_counts(f):
+    import ast as _ast
+    names = {a for g in CONFUSABLE for a in g}
+    out = {}
+    for n in _ast.walk(f.node):
+        if isinstance(n, _ast.Attribute) and n.attr in names and isinstance(n.ctx, _ast.Load):
+            out[n.attr] = out.get(n.attr, 0) + 1
+    return out
+
+
+def attribute_swap(ctx, rule, files):
+    """wrong-but-similar attribute: relative to the pinned tree (frozen per function in param_inventory.json), a function reads one
+    attribute of a confusable group LESS often and a sibling of the group MORE often"""
+    ctx.explain(f"{rule}: attributes that are easily confused (num_subsystems / init_num_subsystems, reg_refs / init_reg_refs, circuit / "
+                "rolled_circuit / unrolled_circuit / space_unrolled_circuit, run_options / backend_options, samples / samples_dict, "
+                "select / dark_counts, ...): no function of the property's anchored files reads one member of such a group less often "
+                "and another member more often than on the pinned tree (counts frozen per function). Only this swap pattern is "
+                "reported; adding or removing reads is not.")
+    inv = load_inventory().get("attr_reads", {})
+    rels = {x[len("strawberryfields/"):] if x.startswith("strawberryfields/") else x for x in files}
+    n = 0
+    for f in ctx.tree.all_functions():
+        if f.module.rel not in rels:
+            continue
+        fid = f"{f.module.rel}::{f.qualname}"
+        then = inv.get(fid)
+        if then is None:
+            continue
+        now = attr_counts(f)
+        if not then and not now:
+            continue
+        n += 1
+        swaps = []
+        for g in CONFUSABLE:
+            less = [a for a in g if now.get(a, 0) < then.get(a, 0)]
+            more = [b for b in g if now.get(b, 0) > then.get(b, 0)]
+            if less and more:
+                swaps.append((less[0], more[0]))
+        ctx.ob(rule, f.site, not swaps, "" if not swaps else
+               f"{f.qualname} now reads `.{swaps[0][1]}` where the pinned tree read `.{swaps[0][0]}` (reads of `.{swaps[0][0]}`: "
+               f"{then.get(swaps[0][0], 0)} -> {now.get(swaps[0][0], 0)}, of `.{swaps[0][1]}`: {then.get(swaps[0][1], 0)} -> "
+               f"{now.get(swaps[0][1], 0)})", role="attr-swap" + ("" if not swaps else f":{swaps[0][0]}>{swaps[0][1]}"),
+               line=f.node.lineno)
+    return n
